@@ -36,6 +36,8 @@ DECIDED = [
     "C15.5 every parse is pinned to the vm (vms, main_vm), the worker (nets) and forced modes ra/ff/fi; run/skip graphs restricted to that vm",
     "C15.6 flag_intersection maps by set-invariant name, rejects non-unique matches before flagging, honours the skip switches",
     "C15.7 flag_children: selection of exactly one root (else AssertionError), walk over cleanup edges, skip_parents/skip_children semantics",
+    "C15.5v from_state / to_state / remove_set come from the vm's own suffix-resolved parameters",
+    "C15.8 the removal itself: sync_states decision table (what is unset for which object, permanent vms only protected at install)",
 ]
 NOT_DECIDED = ["the executed and removed sets for all (from_state, to_state) pairs, vm selections and worker counts"]
 MIN_INSTANCES = 14
@@ -186,6 +188,17 @@ def update_pinning(ctx: Ctx, rule: str) -> None:
     ok_d = d == {"from_state": "vm_params.get('from_state', 'install')", "to_state": "vm_params.get('to_state', 'customize')",
                  "vm_objects": "graph.get_objects(param_val=vm_name)", "selected_vms": "sorted(config['vm_strs'].keys())"}
     ctx.record(rule + "d", "CONST", UPD, "defaults: from_state install, to_state customize; vms = the selected ones", ok_d, d, "" if ok_d else "the defaults of the update tool changed")
+    # the per-vm settings are read from the vm's own (suffix-resolved) parameters
+    reads = [c for c in calls_in(fn.node) if call_name(c) == "get" and c.args and isinstance(c.args[0], ast.Constant) and c.args[0].value in ("from_state", "to_state", "remove_set")]
+    wrong = [ast.unparse(c) for c in reads if ast.unparse(c.func.value) != "vm_params"]
+    vp = [ast.unparse(s_.value) for s_ in ast.walk(fn.node) if isinstance(s_, ast.Assign) and ast.unparse(s_.targets[0]) == "vm_params"]
+    keys = {c.args[0].value for c in reads}
+    chain = [ast.unparse(s_.value) for s_ in sorted((x for x in ast.walk(fn.node) if isinstance(x, ast.Assign) and ast.unparse(x.targets[0]) == "setup_str"), key=lambda x: x.lineno)]
+    ok_v = not wrong and vp == ["config['vms_params'].object_params(vm_name)"] and keys == {"from_state", "to_state", "remove_set"} \
+        and chain == ["vm_params.get('remove_set', 'leaves')", "'all..' + setup_str", "param.re_str(setup_str)"]
+    ctx.record(rule + "v", "PROV", UPD, "from_state / to_state / remove_set are read from the current vm's own parameters (vms_params.object_params(vm)); remove set default 'leaves', prefixed all.. unless it names a known set",
+               ok_v, {"reads": [ast.unparse(c) for c in reads], "vm_params": vp, "setup_str": chain},
+               "" if ok_v else f"per-vm update settings are no longer read from the vm's own parameters ({wrong or vp or chain}): <setting>_<vm> is ignored")
 
 
 def intersection_rules(ctx: Ctx, rule: str) -> None:
@@ -268,6 +281,9 @@ def children_rules(ctx: Ctx, rule: str) -> None:
 def run(ctx: Ctx) -> None:
     ctx.call(update_flags, "")
     ctx.call(update_pinning, "5")
+    from .c05 import sync_table
+
+    ctx.call(sync_table, "8")
     ctx.call(intersection_rules, "6")
     ctx.call(children_rules, "7")
     from ..kinds import signature_defaults
@@ -281,6 +297,8 @@ def run(ctx: Ctx) -> None:
 
 
 MUTANTS = [
+    ("remove-set-from-global-params", "intertest_setup.py", "setup_str = vm_params.get(\"remove_set\", \"leaves\")", "setup_str = config[\"vms_params\"].get(\"remove_set\", \"leaves\")", "5v"),
+    ("permanent-vm-never-cleaned", "cartgraph/node.py", "if object_state == \"install\" and test_object.is_permanent():\n                should_clean = False", "if test_object.is_permanent():\n                should_clean = False", "8"),
     ("clean-not-cleared", IS, "            clean_graph.flag_intersection(\n                clean_graph, flag_type=\"clean\", flag=lambda self, slot: False\n            )\n", "", "1"),
     ("target-itself-cleaned", IS, "                        flag=lambda self, slot: len(self.cloned_nodes) == 0,\n                        skip_parents=True,", "                        flag=lambda self, slot: len(self.cloned_nodes) == 0,\n                        skip_parents=False,", "2"),
     ("clean-all-workers", IS, "                        vm_object.component_form + r\".*\" + worker.id,\n                        flag_type=\"clean\",", "                        vm_object.component_form,\n                        flag_type=\"clean\",", "2"),
